@@ -497,6 +497,14 @@ pub fn plan(property: &str, tier: Tier, seed: u64) -> Option<Plan> {
             crate::engines::stack::units("C03", tier.pick(400, 4000), seed),
             "FlatStack histories: proptest tapes decoded into copy (any form) / extend and from_iter (iterators whose size_hint lower bound is 0, half or all of the true length) / with_capacity / reserve / reserve_items / reserve_regions / clear / clone / clone_from / merge_capacity / serde operations over two stacks of one (region composition, index container) pair; after every step both stacks are compared with a Vec of owned values: len, is_empty, get(i) for all i with the deep read oracle, iteration order, size_hint validity at every position (exactness for the vector index container), a cloned iterator taken mid-way, (&stack).into_iter(), and get(i) for i in {len, len+1, len+7, usize::MAX} must panic. Non-trivial: at least three copied elements, at least two of them distinct.".to_string(),
         ),
+        "C06" => (
+            crate::engines::huffman::units("C06", !q, seed),
+            "Huffman containers. A case = training statistics (symbol, count) spread over 1-4 raw containers, 1-3 generations of merge_regions (each built from 1-3 copies of the previous containers), per generation a list of items over the covered alphabet pushed through all input forms, refusal probes with an uncovered symbol (on clones), and raw pushes after a final clear. Oracles: raw mode round-trips with symbol offsets; per generation the code length of every symbol is measured on a probe clone: >= 1 bit, Kraft sum <= 1, and sum(count*length) equals the cost of a textbook two-queue Huffman code computed by the harness (optimality; ties free); every push starts at the previous end bit and occupies exactly the sum of its code lengths; every issued item decodes exactly (bounded iteration, then into_owned) after every later push; an uncovered symbol must panic at push; encoded items copy into raw and encoded containers. (a) bounded-exhaustive: all sorted count multisets over 1..4 (thorough 5) symbols with counts from {1,2,3,5(,8)} x all sequences of <= 2 (3) items of <= 2 (3) symbols over <= 3 symbols, plus run-length triples reaching every start offset and 0/1/2+ whole bytes; (b) proptest tapes with frequency profiles single symbol / 2^k, 2^k+-1 equal counts / Fibonacci (codes to 16, thorough 22 bits) / geometric / 257..376 (thorough 756) equiprobable u16 symbols / empty / random. Non-trivial: >= 1 generation, >= 2 item reads and some item starting at a non-zero bit offset.".to_string(),
+        ),
+        "C07" => (
+            crate::engines::codec::units("C07", !q, seed),
+            "Dictionary-coded regions. A case = up to 60 operations over four CodecRegion<DictionaryCodec> slots: push / push n copies / push n distinct strings (up to 1430, crossing the heavy-hitter summary's compaction at 1024) / merge_regions from 0..3 arbitrary slots (repeats and the target's own ancestors allowed, any number of generations) / clear. Strings: empty, pool re-use, prefixes and extensions of pool entries, single small bytes (the first tags that get assigned), strings starting with a small byte or 254/255, random bytes of length 1..20. Oracles against a reference model of the source statistics: every push that returns reads back exactly its bytes, now and after every later operation; a push may panic (refusal) only if the region is merged, the string is non-empty and its first byte does not occur in the source statistics; stored bytes per push (delta of the used bytes reported by heap_size) never exceed the length, equal the length on default/cleared regions, and equal 1 for strings that certainly dominate (exact regime, <= 500 distinct strings: fewer than F other non-empty strings have a count >= theirs, F = number of unobserved first bytes; lossy regime: the string holds >= 3/4 of every source's pushes); a merged region starts empty. After a permitted refusal the region is rebuilt from its recipe. Non-trivial: the case stored at least one dictionary hit (1 byte for a longer string) and at least one literal in a merged region.".to_string(),
+        ),
         "C05" => (
             crate::engines::index::units("C05", !q, seed, false),
             "Index containers. (a) bounded-exhaustive: every sequence of push(x)/clear over the alphabet {0,1,2,3,4,6,u32::MAX,u32::MAX+1,2^63,usize::MAX,clear} up to length 6 (quick) / 7 (thorough; 9 on a 6-symbol sub-alphabet) applied to Stride, IndexList, IndexOptimized (Vec<usize> to length 5), explored depth-first with cloned state, compared after every op with a Vec<usize> reference (len, is_empty, index(i) for all i, iteration) and, for Stride, with a u128 acceptor of the documented pattern (accept/reject, state unchanged on reject); any panic is a violation. (b) proptest tapes decoded into op lists built from arithmetic runs, repeat runs, boundary values, clear, extend, reserve, serde round trip, clone/clone_from (<= 2000 elements). Non-trivial: >= 3 pushes and the sequence left the pure stride pattern, or a push was rejected, or a clear was followed by reuse; enumerated sequences are distinct by construction, random ones are counted by hash.".to_string(),
